@@ -213,4 +213,41 @@ def atomicWriteOps (dir base : Str) (chunks : List Str) : List FsOp :=
 /-- `ContentsFile.flush()` for the set `es`, the rendered text split into `chunks` -/
 def flushOps (dir base : Str) (chunks : List Str) : List FsOp := atomicWriteOps dir base chunks
 
+/-- `flush()` when something raises inside the `for obj in sorted(self)` loop (an entry that cannot be
+rendered, an interrupt, a failing `write`) after the chunks `written` reached the temp file: `finally:
+del outfile` makes `AtomicWriteFile` discard its temp file (close, unlink) — the target is never touched -/
+def abortOps (dir base : Str) (written : List Str) : List FsOp :=
+  [.creat (tmpName dir base), .chmod (tmpName dir base) writePerms, .chown (tmpName dir base) rootUid rootGid]
+    ++ written.map (.write (tmpName dir base))
+    ++ [.close (tmpName dir base), .unlink (tmpName dir base)]
+
+/-! ## mutation histories on a long-lived set object -/
+
+/-- the mutating methods of `contentsSet`/`ContentsFile` (arguments already reduced to entries/locations) -/
+inductive SetOp
+  | add (e : Entry)                          -- add(obj)
+  | discard (loc : Str)                      -- discard(x) / remove(x) / del s[x]
+  | clear
+  | update (es : List Entry)                 -- update(iterable)
+  | differenceUpdate (locs : List Str)       -- difference_update(other)
+  | intersectionUpdate (locs : List Str)     -- intersection_update(other)
+  | symDiffUpdate (es : List Entry)          -- symmetric_difference_update(other)
+  deriving DecidableEq, Repr
+
+def hasLoc (s : List Entry) (l : Str) : Bool := s.any (·.loc == l)
+
+def applyOp (s : List Entry) : SetOp → List Entry
+  | .add e => setAdd s e
+  | .discard l => s.filter fun x => x.loc != l
+  | .clear => []
+  | .update es => es.foldl setAdd s
+  | .differenceUpdate ls => s.filter fun x => !(ls.contains x.loc)
+  | .intersectionUpdate ls => s.filter fun x => ls.contains x.loc
+  | .symDiffUpdate es =>
+    let other := es.foldl setAdd []
+    (other.filter fun x => !(hasLoc s x.loc)).foldl setAdd (s.filter fun x => !(hasLoc other x.loc))
+
+/-- the set after a history of operations -/
+def applyOps (s : List Entry) (h : List SetOp) : List Entry := h.foldl applyOp s
+
 end Pkgcore.C24
